@@ -51,8 +51,8 @@ trait Spec: Flat {
     /// value was mapped from (needed only for the FlexVec chain, whose item offsets are not visible through accessors;
     /// its walk examines at most bound + 1 links: a link is >= 1 byte)
     fn used_end(&self, raw: &[u8], bound: usize) -> usize;
-    /// assert that `o` has the same content (loops are bounded by the constant `bound`)
-    fn same(&self, o: &Self, bound: usize);
+    /// does `o` have the same content?  (loops are bounded by the constant `bound`)
+    fn same(&self, o: &Self, bound: usize) -> bool;
 }
 
 macro_rules! sized_spec {
@@ -60,7 +60,7 @@ macro_rules! sized_spec {
         impl Spec for $T {
             const A: usize = $align;
             fn used_end(&self, _raw: &[u8], _bound: usize) -> usize { $size }
-            fn same(&self, o: &Self, _bound: usize) { assert!(*self == *o, "content differs"); }
+            fn same(&self, o: &Self, _bound: usize) -> bool { *self == *o }
         }
     };
 }
@@ -82,15 +82,17 @@ impl<T: Flat + Sized + PartialEq, L: Flat + Length> Spec for FlatVec<T, L> {
     fn used_end(&self, _raw: &[u8], _bound: usize) -> usize {
         ceil_to(size_of::<L>(), align_of::<T>()) + self.len() * size_of::<T>()
     }
-    fn same(&self, o: &Self, bound: usize) {
+    fn same(&self, o: &Self, bound: usize) -> bool {
         let n = self.len();
-        assert!(o.len() == n, "content differs: vector length");
+        if o.len() != n { return false; }
         let (x, y) = (self.as_slice(), o.as_slice());
+        let mut ok = true;
         let mut i = 0;
         while i < bound {
-            if i < n { assert!(x[i] == y[i], "content differs: vector element"); }
+            if i < n && x[i] != y[i] { ok = false; }
             i += 1;
         }
+        ok
     }
 }
 
@@ -98,16 +100,18 @@ impl<T: Flat + Sized + PartialEq, L: Flat + Length> Spec for FlatVec<T, L> {
 impl<L: Flat + Length> Spec for FlatString<L> {
     const A: usize = align_of::<L>();
     fn used_end(&self, _raw: &[u8], _bound: usize) -> usize { size_of::<L>() + self.len() }
-    fn same(&self, o: &Self, bound: usize) {
+    fn same(&self, o: &Self, bound: usize) -> bool {
         let n = self.len();
-        assert!(o.len() == n, "content differs: string length");
+        if o.len() != n { return false; }
         let (x, y) = (self.as_str().as_bytes(), o.as_str().as_bytes());
-        assert!(x.len() == n && y.len() == n);
+        if x.len() != n || y.len() != n { return false; }
+        let mut ok = true;
         let mut i = 0;
         while i < bound {
-            if i < n { assert!(x[i] == y[i], "content differs: string byte"); }
+            if i < n && x[i] != y[i] { ok = false; }
             i += 1;
         }
+        ok
     }
 }
 
@@ -139,20 +143,22 @@ macro_rules! flex_spec {
                     }
                     k += 1;
                 }
-                match end { Some(e) => e, None => panic!("reference walk: chain longer than the bound") }
+                match end { Some(e) => e, None => panic!("C05: reference walk: chain longer than the bound") }
             }
-            fn same(&self, o: &Self, bound: usize) {
+            fn same(&self, o: &Self, bound: usize) -> bool {
                 let mut it = self.iter();
                 let mut jt = o.iter();
+                let mut ok = true;
                 let mut i = 0;
                 while i < bound {
                     match (it.next(), jt.next()) {
                         (None, None) => {}
-                        (Some(x), Some(y)) => x.same(y, bound),
-                        _ => panic!("content differs: number of items"),
+                        (Some(x), Some(y)) => { if !x.same(y, bound) { ok = false; } }
+                        _ => { ok = false; }
                     }
                     i += 1;
                 }
+                ok
             }
         }
     };
@@ -165,27 +171,24 @@ flex_spec!(FlatVec<u8, u8>, u8, 1, |p| 1 + p[0] as usize);
 impl Spec for UStruct {
     const A: usize = 2;
     fn used_end(&self, _raw: &[u8], _bound: usize) -> usize { 6 + self.c.len() }
-    fn same(&self, o: &Self, bound: usize) {
-        assert!(self.a == o.a && self.b == o.b, "content differs: sized fields");
-        self.c.same(&o.c, bound);
+    fn same(&self, o: &Self, bound: usize) -> bool {
+        self.a == o.a && self.b == o.b && self.c.same(&o.c, bound)
     }
 }
 /// UPad (C rule): a u64 @0, v FlatVec<u8,u16> @8 (length @8, elements @10); align 8 -> up to 7 bytes of trailing padding
 impl Spec for UPad {
     const A: usize = 8;
     fn used_end(&self, _raw: &[u8], _bound: usize) -> usize { 10 + self.v.len() }
-    fn same(&self, o: &Self, bound: usize) {
-        assert!(self.a == o.a, "content differs: sized fields");
-        self.v.same(&o.v, bound);
+    fn same(&self, o: &Self, bound: usize) -> bool {
+        self.a == o.a && self.v.same(&o.v, bound)
     }
 }
 /// UBoolVec: n u8 @0, flags FlatVec<Bool,u8> @1 (length @1, elements @2); align 1
 impl Spec for UBoolVec {
     const A: usize = 1;
     fn used_end(&self, _raw: &[u8], _bound: usize) -> usize { 2 + self.flags.len() }
-    fn same(&self, o: &Self, bound: usize) {
-        assert!(self.n == o.n, "content differs: sized fields");
-        self.flags.same(&o.flags, bound);
+    fn same(&self, o: &Self, bound: usize) -> bool {
+        self.n == o.n && self.flags.same(&o.flags, bound)
     }
 }
 /// UEnum: tag u8 @0, align 4 (u32 field), payload @4.  A: nothing.  B: u8 @4, u16 @6.  C: u32 @4, FlatVec<u8,u16> @8
@@ -199,15 +202,12 @@ impl Spec for UEnum {
             UEnumRef::C { bytes, .. } => 10 + bytes.len(),
         }
     }
-    fn same(&self, o: &Self, bound: usize) {
+    fn same(&self, o: &Self, bound: usize) -> bool {
         match (self.as_ref(), o.as_ref()) {
-            (UEnumRef::A, UEnumRef::A) => {}
-            (UEnumRef::B(x, y), UEnumRef::B(p, q)) => assert!(*x == *p && *y == *q, "content differs: variant fields"),
-            (UEnumRef::C { offset: x, bytes: y }, UEnumRef::C { offset: p, bytes: q }) => {
-                assert!(*x == *p, "content differs: variant fields");
-                y.same(q, bound);
-            }
-            _ => panic!("content differs: variant"),
+            (UEnumRef::A, UEnumRef::A) => true,
+            (UEnumRef::B(x, y), UEnumRef::B(p, q)) => *x == *p && *y == *q,
+            (UEnumRef::C { offset: x, bytes: y }, UEnumRef::C { offset: p, bytes: q }) => *x == *p && y.same(q, bound),
+            _ => false,
         }
     }
 }
@@ -228,7 +228,7 @@ fn c05_body<T: Spec + ?Sized, const N: usize>() {
     assert!(s <= len, "C05: size() exceeds the mapped bytes");
     if s > len { return; }
     let w = match T::from_bytes(&b[..s]) { Ok(w) => w, Err(_) => panic!("C05: the first size() bytes do not validate") };
-    v.same(w, N);
+    assert!(v.same(w, N), "C05: the truncated value has different content");
     assert!(w.size() == s, "C05: the truncated value has a different size()");
 }
 
@@ -252,7 +252,7 @@ fn c06_body<T: Spec + ?Sized, const N: usize>(prefix: bool, extension: bool) {
             Err(e) => assert!(e.kind == ErrorKind::InsufficientSize, "C06: a prefix is rejected with a content error"),
             Ok(p) => {
                 assert!(k >= end, "C06: a prefix that misses more than trailing padding is accepted");
-                m.same(p, N);
+                assert!(m.same(p, N), "C06: a prefix is accepted as a different message");
             }
         }
     }
@@ -260,7 +260,7 @@ fn c06_body<T: Spec + ?Sized, const N: usize>(prefix: bool, extension: bool) {
         match T::from_bytes(b) {
             Err(_) => panic!("C06: a message followed by further bytes is rejected"),
             Ok(x) => {
-                m.same(x, N);
+                assert!(m.same(x, N), "C06: further bytes change the content");
                 assert!(x.size() == s0, "C06: further bytes change size()");
             }
         }
@@ -288,7 +288,7 @@ c05!(c05_vec_u32_u8, FlatVec<u32, u8>, 12, 14);
 c05!(c05_string_u16, FlatString<u16>, 6, 8);
 c05!(c05_flex_u8_u8, FlexVec<u8, u8>, 6, 8);
 c05!(c05_flex_u16_u8, FlexVec<u16, u8>, 6, 8);
-c05!(c05_flex_vec_u8, FlexVec<FlatVec<u8, u8>, u8>, 5, 7);
+c05!(c05_flex_vec_u8, FlexVec<FlatVec<u8, u8>, u8>, 4, 6);
 c05!(c05_ustruct, UStruct, 12, 14);
 c05!(c05_upad, UPad, 24, 26);
 c05!(c05_uenum, UEnum, 16, 18);
@@ -304,11 +304,234 @@ c06!(c06_flex_u8_u8_prefix, FlexVec<u8, u8>, 6, 8, true, false);
 c06!(c06_flex_u8_u8_ext, FlexVec<u8, u8>, 6, 8, false, true);
 c06!(c06_flex_u16_u8_prefix, FlexVec<u16, u8>, 6, 8, true, false);
 c06!(c06_flex_u16_u8_ext, FlexVec<u16, u8>, 6, 8, false, true);
-c06!(c06_flex_vec_u8_prefix, FlexVec<FlatVec<u8, u8>, u8>, 5, 7, true, false);
-c06!(c06_flex_vec_u8_ext, FlexVec<FlatVec<u8, u8>, u8>, 5, 7, false, true);
+c06!(c06_flex_vec_u8_prefix, FlexVec<FlatVec<u8, u8>, u8>, 4, 6, true, false);
+c06!(c06_flex_vec_u8_ext, FlexVec<FlatVec<u8, u8>, u8>, 4, 6, false, true);
 c06!(c06_ustruct, UStruct, 12, 14, true, true);
 c06!(c06_upad, UPad, 24, 26, true, true);
 c06!(c06_uenum, UEnum, 16, 18, true, true);
 c06!(c06_uboolvec, UBoolVec, 6, 8, true, true);
 c06!(c06_sstruct, SStruct, 26, 28, true, true);
 c06!(c06_senum, SEnum, 10, 12, true, true);
+
+// ------------------------------------------------------------------------------------------------------------------
+// C05 on a mutation-reached state: any valid UStruct, then one push / pop / truncate through the nested vector
+// ------------------------------------------------------------------------------------------------------------------
+#[kani::proof]
+#[kani::unwind(12)]
+fn c05_mut_ustruct() {
+    const N: usize = 10; // BOUNDED: buffer <= N bytes
+    let mut back = Back::<N>(kani::any());
+    let len: usize = kani::any();
+    kani::assume(len <= N);
+    let b: &mut [u8] = &mut back.0[..len];
+    let mut elems = [0u8; N];
+    let (s, a, bb, n) = {
+        let v = match UStruct::from_mut_bytes(b) { Ok(v) => v, Err(_) => return };
+        let op: u8 = kani::any();
+        if op == 0 { let _ = v.c.push(kani::any()); }
+        else if op == 1 { let _ = v.c.pop(); }
+        else { let t: usize = kani::any(); kani::assume(t <= N); v.c.truncate(t); }
+        let n = v.c.len();
+        let mut i = 0;
+        while i < N {
+            if i < n { elems[i] = v.c.as_slice()[i]; }
+            i += 1;
+        }
+        (v.size(), v.a, v.b, n)
+    };
+    // a u8 @0, b u16 @2, c: length @4, elements @6; align 2
+    assert!(s == ceil_to(6 + n, 2), "C05: size() differs from the reference extent after a mutation");
+    assert!(s <= len, "C05: size() exceeds the mapped bytes after a mutation");
+    if s > len { return; }
+    let w = match UStruct::from_bytes(&b[..s]) { Ok(w) => w, Err(_) => panic!("C05: the first size() bytes do not validate after a mutation") };
+    assert!(w.a == a && w.b == bb && w.c.len() == n, "C05: the truncated value has different content after a mutation");
+    assert!(w.size() == s, "C05: the truncated value has a different size() after a mutation");
+    let mut i = 0;
+    while i < N {
+        if i < n { assert!(w.c.as_slice()[i] == elems[i], "C05: the truncated value has different content after a mutation"); }
+        i += 1;
+    }
+}
+
+// ------------------------------------------------------------------------------------------------------------------
+// C17: portable composites.  Buffers start at an ARBITRARY address (8-aligned backing store + symbolic offset 0..3).
+// ------------------------------------------------------------------------------------------------------------------
+
+/// reference serialiser: bytes are appended one after another, no gaps
+struct Img<const M: usize> { b: [u8; M], p: usize }
+impl<const M: usize> Img<M> {
+    fn new() -> Self { Img { b: [0; M], p: 0 } }
+    fn put(&mut self, x: u8) { if self.p < M { self.b[self.p] = x; } self.p += 1; }
+    fn put2(&mut self, x: [u8; 2]) { self.put(x[0]); self.put(x[1]); }
+    fn put4(&mut self, x: [u8; 4]) { self.put(x[0]); self.put(x[1]); self.put(x[2]); self.put(x[3]); }
+    /// image == the first `s` bytes of `bytes`, and the image is exactly `s` bytes long (no padding anywhere)
+    fn equals(&self, bytes: &[u8], s: usize) -> bool {
+        if self.p != s || s > M || bytes.len() < s { return false; }
+        let mut ok = true;
+        let mut i = 0;
+        while i < M {
+            if i < s && bytes[i] != self.b[i] { ok = false; }
+            i += 1;
+        }
+        ok
+    }
+}
+
+/// PUStruct image: a (LE16), length of b (LE16), elements of b (BE16 each)
+fn ser_pustruct<const M: usize>(img: &mut Img<M>, v: &PUStruct) {
+    img.put2(u16::from(v.a).to_le_bytes());
+    let n = v.b.len();
+    img.put2((n as u16).to_le_bytes());
+    let mut i = 0;
+    while i < M {
+        if i < n { img.put2(u16::from(v.b.as_slice()[i]).to_be_bytes()); }
+        i += 1;
+    }
+}
+
+macro_rules! c17_prologue {
+    ($T:ty, $N:expr, $back:ident, $b:ident, $v:ident) => {
+        assert!(<$T as FlatBase>::ALIGN == 1, "C17: a portable type has ALIGN != 1");
+        let $back = Back::<{ $N + 4 }>(kani::any());
+        let len: usize = kani::any();
+        let off: usize = kani::any();
+        kani::assume(len <= $N && off < 4);
+        let $b: &[u8] = &$back.0[off..off + len];
+        let r = <$T>::from_bytes($b);
+        if let Err(e) = &r { assert!(e.kind != ErrorKind::BadAlign, "C17: a portable type cannot be mapped at some address"); }
+        let $v = match r { Ok(v) => v, Err(_) => return };
+        assert!(core::mem::align_of_val($v) == 1, "C17: a portable type has alignment != 1");
+    };
+}
+
+#[kani::proof]
+#[kani::unwind(12)]
+fn c17_pstruct() {
+    const N: usize = 10; // BOUNDED: buffer <= N bytes (the type is sized: 8 bytes)
+    c17_prologue!(PStruct, N, back, b, v);
+    let mut img = Img::<N>::new();
+    img.put(v.a);
+    img.put2(u16::from(v.b).to_le_bytes());
+    img.put4(u32::from(v.c).to_be_bytes());
+    img.put(if bool::from(v.f) { 1 } else { 0 });
+    assert!(img.equals(v.as_bytes(), v.size()), "C17: image differs from the reference serialisation");
+    assert!(img.equals(b, v.size()), "C17: image differs from the reference serialisation");
+}
+
+#[kani::proof]
+#[kani::unwind(12)]
+fn c17_pustruct() {
+    const N: usize = 10; // BOUNDED: buffer <= N bytes (<= 3 elements)
+    c17_prologue!(PUStruct, N, back, b, v);
+    let mut img = Img::<N>::new();
+    ser_pustruct(&mut img, v);
+    assert!(img.equals(v.as_bytes(), v.size()), "C17: image differs from the reference serialisation");
+}
+
+#[kani::proof]
+#[kani::unwind(12)]
+fn c17_puenum() {
+    const N: usize = 10; // BOUNDED: buffer <= N bytes
+    c17_prologue!(PUEnum, N, back, b, v);
+    let mut img = Img::<N>::new();
+    match v.as_ref() {
+        PUEnumRef::A => img.put(0),
+        PUEnumRef::B(x, y) => { img.put(1); img.put2(u16::from(*x).to_be_bytes()); img.put(*y); }
+        PUEnumRef::C(p) => { img.put(2); ser_pustruct(&mut img, p); }
+    }
+    assert!(img.equals(v.as_bytes(), v.size()), "C17: image differs from the reference serialisation");
+}
+
+#[kani::proof]
+#[kani::unwind(12)]
+fn c17_vec_le16_le16() {
+    const N: usize = 10; // BOUNDED: buffer <= N bytes (<= 4 elements)
+    c17_prologue!(FlatVec<le::U16, le::U16>, N, back, b, v);
+    let mut img = Img::<N>::new();
+    let n = v.len();
+    img.put2((n as u16).to_le_bytes());
+    let mut i = 0;
+    while i < N {
+        if i < n { img.put2(u16::from(v.as_slice()[i]).to_le_bytes()); }
+        i += 1;
+    }
+    assert!(img.equals(v.as_bytes(), v.size()), "C17: image differs from the reference serialisation");
+}
+
+#[kani::proof]
+#[kani::unwind(12)]
+fn c17_vec_be32_u8() {
+    const N: usize = 10; // BOUNDED: buffer <= N bytes (<= 2 elements)
+    c17_prologue!(FlatVec<be::U32, u8>, N, back, b, v);
+    let mut img = Img::<N>::new();
+    let n = v.len();
+    img.put(n as u8);
+    let mut i = 0;
+    while i < N {
+        if i < n { img.put4(u32::from(v.as_slice()[i]).to_be_bytes()); }
+        i += 1;
+    }
+    assert!(img.equals(v.as_bytes(), v.size()), "C17: image differs from the reference serialisation");
+}
+
+#[kani::proof]
+#[kani::unwind(8)]
+fn c17_string_le16() {
+    const N: usize = 6; // BOUNDED: buffer <= N bytes (<= 4 bytes of UTF-8)
+    c17_prologue!(FlatString<le::U16>, N, back, b, v);
+    let mut img = Img::<N>::new();
+    let n = v.len();
+    img.put2((n as u16).to_le_bytes());
+    let sb = v.as_str().as_bytes();
+    let mut i = 0;
+    while i < N {
+        if i < n { img.put(sb[i]); }
+        i += 1;
+    }
+    assert!(img.equals(v.as_bytes(), v.size()), "C17: image differs from the reference serialisation");
+}
+
+/// FlexVec<u8, le::U16>: restricted to the chains the API produces (every item but the last is followed directly by the
+/// next slot: offset 3; the last item is open: 0xFFFF; empty: a zero slot).  Image: per item [offset LE16][item].
+#[kani::proof]
+#[kani::unwind(10)]
+fn c17_flex_u8_le16() {
+    const N: usize = 8; // BOUNDED: buffer <= N bytes (<= 2 items)
+    c17_prologue!(FlexVec<u8, le::U16>, N, back, b, v);
+    let cnt = v.len();
+    let mut img = Img::<N>::new();
+    let mut it = v.iter();
+    let mut i = 0;
+    while i < N {
+        if let Some(x) = it.next() {
+            if i + 1 < cnt { img.put2(3u16.to_le_bytes()); } else { img.put2(0xffffu16.to_le_bytes()); }
+            img.put(*x);
+        }
+        i += 1;
+    }
+    if cnt == 0 { img.put2(0u16.to_le_bytes()); }
+    // canonical chain only (what push / truncate produce)
+    let mut canon = cnt == 0 || (b[3 * (cnt - 1)] == 0xff && b[3 * (cnt - 1) + 1] == 0xff);
+    let mut j = 0;
+    while j < N {
+        if j + 1 < cnt && !(b[3 * j] == 3 && b[3 * j + 1] == 0) { canon = false; }
+        j += 1;
+    }
+    kani::assume(canon);
+    assert!(img.equals(v.as_bytes(), v.size()), "C17: image differs from the reference serialisation");
+}
+
+/// "enums with every tag width": a portable enum declared with a 16-bit tag
+#[flat(sized = false, portable = true, default = true, tag_type = "u16")]
+pub enum PUEnum16 {
+    #[default]
+    A,
+    B(be::U16, u8),
+}
+fn is_portable<T: flatty::Portable + ?Sized>() {}
+
+#[kani::proof]
+fn c17_tag_u16() {
+    is_portable::<PUEnum16>();
+    assert!(<PUEnum16 as FlatBase>::ALIGN == 1, "C17: a portable enum with a 16-bit tag has ALIGN != 1");
+}
